@@ -1282,6 +1282,7 @@ def R3(ctx, rule="R3", parts=("structures", "counts", "graph-field")):
     aug = None
     rank_call = None
     later = []
+    later_fg = []
     for bb, t in b.calls():
         p = callee_path(t) or ""
         if p in ctx.fb.bodies:
@@ -1298,6 +1299,10 @@ def R3(ctx, rule="R3", parts=("structures", "counts", "graph-field")):
                     t = dict(t)
                     t["args"] = [t["args"][gi]] + [a for i, a in enumerate(t["args"]) if i != gi]
                     later.append((bb, t, short(p)))
+            elif any("fn_graph::FnGraph<F>" in x for x in a_tys) and "fn_graph::FnGraph" not in t["dest"]["ty"]:
+                # a private step that works on the assembled FnGraph value (`Self::graph_structures_fill(&mut fn_graph)`): the
+                # graph it reads is that value's `graph` field
+                later_fg.append((bb, t, short(p), [i for i, x in enumerate(a_tys) if "fn_graph::FnGraph<F>" in x][0]))
         elif p in ("daggy::Dag::<N, E, Ix>::raw_edges", "daggy::Dag::<N, E, Ix>::raw_nodes"):
             later.append((bb, t, p.split("::")[-1]))
     if aug is None:
@@ -1350,6 +1355,19 @@ def R3(ctx, rule="R3", parts=("structures", "counts", "graph-field")):
         ctx.check(b.dominates(aug[0], bb) and same, rule, "after-augment|%s" % name, m.where(b, bb),
                   "%s reads the same graph after data-edge augmentation (augment call dominates it)" % name,
                   "%s is evaluated on the graph before augmentation / on a different graph: Data edges are ignored" % name)
+    roles_ = structure_roles(ctx)
+    for bb, t, name, ai in later_fg:
+        p_ = callee_path(t) or ""
+        reads_raw = any((callee_path(t2) or "") in ("daggy::Dag::<N, E, Ix>::raw_edges", "daggy::Dag::<N, E, Ix>::raw_nodes") or
+                        (callee_path(t2) or "") in NODE_COUNT_FNS
+                        for bx in m.reach_bodies(p_) for _, t2 in bx.calls())
+        part = "structures" if reads_raw else "counts"
+        if part not in parts or not roles_:
+            continue
+        same = fl.sources_operand(b, t["args"][ai], (roles_["graph"],)) == gsrc
+        ctx.check(b.dominates(aug[0], bb) and same, rule, "after-augment|%s" % name, m.where(b, bb),
+                  "%s works on the assembled value whose graph is the augmented graph (augment call dominates it)" % name,
+                  "%s is evaluated before augmentation / on a different graph: Data edges are ignored" % name)
     if "ranks" in parts:
         rcs = []
         for bb, t in b.calls():
@@ -2408,7 +2426,7 @@ def eq_same_attribute(ctx, rule, eqb, what):
     return n
 
 
-def eq_monotone(ctx, rule, eqb, what, eq_like_sites=()):
+def eq_monotone(ctx, rule, eqb, what, eq_like_sites=(), helper_ok=()):
     """`==` answers `false` only after some comparison found a difference and may answer `true` only if none did: on every
     decision path of the function, with every test on it understood, a constant `false` is returned only below a failed
     comparison and a value that can be `true` only below none. (`a != b` for `a == b`, `if all_equal { return false }`.)"""
@@ -2439,7 +2457,11 @@ def eq_monotone(ctx, rule, eqb, what, eq_like_sites=()):
                 return -1
             if (eqb.id, sym[1]) in sites:
                 return 1
+            if p in ctx.fb.bodies and t["dest"]["ty"] == "bool" and p in helper_ok:
+                return 1        # a private comparison step of `==` that was itself found monotone
             return None
+        if sym[0] == "discr" and str(sym[1]).startswith(("std::iter::Iterator::next(", "(std::iter::Iterator::next(")):
+            return 0            # the loop's own exhaustion test
         if sym[0] == "discr":
             # the variant of an all-pairs-equal consumer's own result (`Continue(x) | Break(x)`): its payload carries the answer
             for (sb_id, sbb) in sites:
@@ -2667,8 +2689,36 @@ def D4(ctx, rule="D4"):
                     ctx.check(okc, rule, "conjunctive|%d" % zips, m.where(b, bb),
                               "the pairwise comparison is a conjunction: one unequal pair makes the result false (%s)" % whyc,
                               "the pairwise comparison is not a conjunction over all pairs: %s" % whyc)
+    # comparison steps written as private bool helpers with a `for (a, b) in x.zip(y) { if !(..) { return false } } true` loop
+    helper_ok = []
+    for bid in sorted(m.reach(eqb.id)):
+        hb = fb.bodies[bid]
+        hsig = fb.fns.get(bid) or {}
+        if hb.kind != "fn" or hb.id == eqb.id or hsig.get("public") or (hsig.get("output") or {}).get("s") != "bool":
+            continue
+        seen_h = set()
+        n_loop = 0
+        for (src_, hdr_) in hb.back_edges():
+            if hdr_ in seen_h:
+                continue
+            seen_h.add(hdr_)
+            lr_ = loop_region(ctx, hb, src_)
+            if lr_ is None or lr_.get("iter_expr") is None:
+                continue
+            names_ = [c[0] for c in iterator_chain(ctx, hb, lr_["iter_expr"])]
+            if "std::iter::Iterator::zip" not in names_:
+                continue
+            n_loop += 1
+            zips += 1
+            sel_ = [n_ for n_ in names_ if n_ in SELECTIVE_ITER]
+            ctx.check(not sel_, rule, "zip-unfiltered|%d" % zips, m.where(hb, lr_["next_bb"]), "pairwise comparison loop over the full zipped sequences",
+                      "comparison loop narrowed by %s" % sel_)
+        n_before = len([o for o in ctx.obs if o.status != "ok"])
+        eq_monotone(ctx, rule, hb, "FnGraph == (%s)" % short(hb.id), eq_like, helper_ok)
+        if len([o for o in ctx.obs if o.status != "ok"]) == n_before:
+            helper_ok.append(hb.id)
     eq_same_attribute(ctx, rule, eqb, "FnGraph ==")
-    eq_monotone(ctx, rule, eqb, "FnGraph ==", eq_like)
+    eq_monotone(ctx, rule, eqb, "FnGraph ==", eq_like, helper_ok)
     if iter_eqs:
         # every `a.eq(b)` result is a conjunct of the returned value: on each path to the return, the result is `false`, or is the
         # comparison itself, or the comparison was found true on the way
@@ -3097,6 +3147,13 @@ def progress_guard(ctx, body, bb, t):
         if e.kind == "call" and e[1] in ("std::cmp::PartialOrd::gt", "std::cmp::PartialOrd::lt", "std::cmp::PartialOrd::ge", "std::cmp::PartialOrd::le"):
             op = e[1].split("::")[-1]
             cmp_ = (op, strip_refs(e[2][0]), strip_refs(e[2][1]))
+        elif e.kind == "call" and e[1] == "std::cmp::PartialEq::ne" and len(e[2]) == 2:
+            # `max(existing, candidate) != existing`: true exactly when the candidate is strictly greater
+            l_, r_ = strip_refs(e[2][0]), strip_refs(e[2][1])
+            for mx, ex in ((l_, r_), (r_, l_)):
+                if mx.kind == "call" and mx[1] in ("std::cmp::max", "std::cmp::Ord::max") and \
+                        any(fmt_expr(strip_refs(a_), body) == fmt_expr(ex, body) for a_ in mx[2]):
+                    cmp_ = ("ne", l_, r_)
         elif e.kind == "binop" and e[1] in ("Gt", "Lt", "Ge", "Le", "Ne"):
             cmp_ = (e[1].lower(), strip_refs(e[2]), strip_refs(e[3]))
         if cmp_:
@@ -3562,6 +3619,19 @@ def candidate_ok(ctx, body, cand, rank_allocs):
         if callee_path(t) == CHILDREN:
             if fl.sources_operand(b, t["args"][1]) == psrc:
                 ok_ch = True
+    if not ok_ch:
+        # ... or inside a private helper that is handed that node (`Self::child_fn_ids(graph, fn_id)`)
+        for bb, t in b.calls():
+            hp = callee_path(t) or ""
+            H = fb.bodies.get(hp)
+            if H is None or H.kind != "fn":
+                continue
+            for hbb, ht in H.calls():
+                if callee_path(ht) == CHILDREN and len(ht["args"]) > 1:
+                    for q in fl.sources_operand(H, ht["args"][1], (), "prov@" + H.id):
+                        if q.kind == "param" and q[1] == H.id and not q[3] and q[2] - 1 < len(t["args"]) and \
+                                fl.sources_operand(b, t["args"][q[2] - 1]) == psrc:
+                            ok_ch = True
     if not ok_ch:
         return False, "children() is not walked for the node whose rank is the base"
     return True, ""
